@@ -4,10 +4,12 @@
      EV = {"ev":"init","table":[[key,v,axis,EXPR|null],..]}
         | {"ev":"bind","v":name,"dims":[[key|null,axis,EXPR|null],..]}
         | {"ev":"scope","parent":[[key,v,axis],..],"fin":name,"dims":[[key|null,axis,EXPR|null],..]}
-        | {"ev":"call","exprs":[EXPR,..]}
+        | {"ev":"call","exprs":[EXPR | {"int":n},..]}
      -> {"calls":[{"trees":[..],"missing":[..],"vals":[[[memo,plain,jax] per binding] per expr]},..],
-         "table":[[key,v,axis],..]}
-  {"op":"ops","pairs":[[x,y],..]} -> {"div":[..],"mod":[..],"max":[..],"min":[..],"fdiv":[..],"fmod":[..]}
+         "table":[[key,v,axis],..],"consistent":bool (keysConsistent of all lowered expressions),
+         "cache_keys":[..] (final memo keys, newest first)}
+  {"op":"ops","pairs":[[x,y],..]} -> {"tdiv":[..],"mod":[..],"floordiv":[..],"sub":[..],"max":[..],"min":[..],
+                                       "fdiv":[..],"fmod":[..],"pow":[..]}
 
   EXPR = {"k":str,"t":[{"ktc":str,"kt":str,"c":int,"f":[{"kfp":str,"p":nat,"var":str} |
                         {"kfp":str,"p":nat,"op":str,"kop":str,"args":[EXPR,EXPR]}]}]}
@@ -74,6 +76,8 @@ structure St where
   /-- every (value, axis) ever recorded with the expression it was recorded for -/
   recs : List (String × Nat × Expr) := []
   calls : Array Json := #[]
+  /-- every expression lowered through this context's memo, in order -/
+  exprs : List Expr := []
 
 def sigmaOf (syms : List String) (vals : List Int) : String → Int := fun s =>
   match (syms.zip vals).find? (·.1 == s) with
@@ -114,19 +118,30 @@ def stepEvent (syms : List String) (bindings : List (List Int)) (st : St) (ev : 
     pure { st with table := st.table.apply (.scope parent fin (dims.map fun d => (d.1, d.2.1))),
                    recs := recs ++ st.recs }
   | "call" =>
-    let es ← (← (← ev.getObjVal? "exprs").getArr?).toList.mapM parseExpr
+    -- items are EXPR objects or {"int": n} (a Python int in the list: `_get_scalar` only)
+    let items ← (← (← ev.getObjVal? "exprs").getArr?).toList.mapM fun j =>
+      match j.getObjVal? "int" with
+      | .ok n => do pure (Sum.inl (← n.getInt?) : Sum Int Expr)
+      | .error _ => do pure (Sum.inr (← parseExpr j))
     let org := st.table.org
-    let r := lowerCallC org es st.cache
+    let step := fun (acc : List (IntProg × Option Expr) × Cache) (it : Sum Int Expr) =>
+      match it with
+      | .inl n => let r := getScalar n acc.2; (acc.1 ++ [(r.1, none)], r.2)
+      | .inr e => let r := lowerExprC org e acc.2; (acc.1 ++ [(r.1, some e)], r.2)
+    let r := items.foldl step ([], st.cache)
+    let es := items.filterMap fun it => match it with | .inr e => some e | .inl _ => none
     let missing := (es.flatMap Expr.vars).filter (fun n => (st.table.lookup n).isNone) |>.eraseDups
-    let vals := (es.zip r.1).map fun (e, tree) =>
+    let vals := r.1.map fun (tree, eo) =>
       Json.arr <| bindings.toArray.map fun b =>
         let σ := sigmaOf syms b
         let sh := shapesOf st.recs σ
-        Json.arr #[Json.num (tree.eval sh), Json.num ((lowerExpr org e).eval sh), Json.num (e.evalJax σ)]
-    let out := Json.mkObj [("trees", Json.arr (r.1.toArray.map fun t => Json.str t.render)),
+        match eo with
+        | some e => Json.arr #[Json.num (tree.eval sh), Json.num ((lowerExpr org e).eval sh), Json.num (e.evalJax σ)]
+        | none => Json.arr #[Json.num (tree.eval sh), Json.num (tree.eval sh), Json.num (tree.eval sh)]
+    let out := Json.mkObj [("trees", Json.arr (r.1.toArray.map fun t => Json.str t.1.render)),
                            ("missing", Json.arr (missing.toArray.map Json.str)),
                            ("vals", Json.arr vals.toArray)]
-    pure { st with cache := r.2, calls := st.calls.push out }
+    pure { st with cache := r.2, calls := st.calls.push out, exprs := st.exprs ++ es }
   | k => throw s!"bad-event:{k}"
 
 def ints (j : Json) : R (List Int) := do (← j.getArr?).toList.mapM (·.getInt?)
@@ -141,11 +156,17 @@ def handle (line : String) : R Json := do
     let evs ← (← j.getObjVal? "events").getArr?
     let st ← evs.toList.foldlM (stepEvent syms bindings) {}
     let tab := (dedupTable st.table).map fun (k, o) => Json.arr #[Json.str k, Json.str o.v, Json.num (o.axis : Int)]
-    pure (Json.mkObj [("calls", Json.arr st.calls), ("table", Json.arr tab.toArray)])
+    let keys := st.cache.map fun (k, _) => match k with
+      | .num n => Json.num n
+      | .txt t => Json.str t
+    pure (Json.mkObj [("calls", Json.arr st.calls), ("table", Json.arr tab.toArray),
+                      ("consistent", Json.bool (keysConsistent st.exprs)),
+                      ("cache_keys", Json.arr keys.toArray)])
   | "ops" =>
     let pairs ← (← (← j.getObjVal? "pairs").getArr?).toList.mapM ints
     let col (f : Int → Int → Int) := Json.arr (pairs.toArray.map fun p => Json.num (f p[0]! p[1]!))
-    pure (Json.mkObj [("div", col (OpKind.onnx .floordiv)), ("mod", col (OpKind.onnx .mod)),
+    pure (Json.mkObj [("tdiv", col Int.tdiv), ("mod", col (OpKind.onnx .mod)),
+                      ("floordiv", col (OpKind.onnx .floordiv)), ("sub", col (fun a b => a - b)),
                       ("max", col (OpKind.onnx .max)), ("min", col (OpKind.onnx .min)),
                       ("fdiv", col (OpKind.jax .floordiv)), ("fmod", col (OpKind.jax .mod)),
                       ("pow", Json.arr (pairs.toArray.map fun p =>
